@@ -467,7 +467,7 @@ func (p *parser) primary() (Expr, error) {
 var clauseKW = map[string]bool{"requires": true, "ensures": true, "xensures": true, "inv": true, "modifies": true,
 	"lock": true, "pure": true, "nopanic": true, "trusted": true, "maypanic": true, "params": true, "results": true,
 	"fn": true, "pred": true, "uf": true, "ghost": true, "global": true, "axiom": true, "xmodifies": true, "reads": true,
-	"callsonly": true, "delegates": true, "atcall": true, "exceptional": true, "implements": true, "opaque": true, "returns": true, "cut": true}
+	"callsonly": true, "delegates": true, "atcall": true, "exceptional": true, "implements": true, "opaque": true, "returns": true, "cut": true, "noglobals": true}
 
 // ParseSpecLines parses the logical lines (already stripped of the //@ prefix).
 func ParseSpecLines(pkg, file string, lines []string, lineNos []int) (*SpecFile, error) {
@@ -569,7 +569,7 @@ func ParseSpecLines(pkg, file string, lines []string, lineNos []int) (*SpecFile,
 				cur.Lock = rest
 			case "implements":
 				cur.Implements = append(cur.Implements, rest)
-			case "pure", "nopanic", "trusted", "maypanic", "exceptional":
+			case "pure", "nopanic", "trusted", "maypanic", "exceptional", "noglobals":
 				cur.Flags[kw] = true
 			case "params":
 				cur.Params = strings.Fields(strings.ReplaceAll(rest, ",", " "))
